@@ -9,6 +9,7 @@
 //! that every component lands on an end of its range at the same time.
 
 pub mod cases;
+pub mod types;
 pub mod simrng;
 
 use simcore::core::{catch, Caught, Ctx, Tier, World, WorldInfo};
